@@ -37,6 +37,11 @@ SeqApply(op, d) ==
     \* one key of an expiry sweep: removes the entry iff it is expired and reports it to the callback
     [] op.m = "sweepkey" -> IF d[op.k] # 0 /\ Exp(d[op.k]) THEN [d |-> [d EXCEPT ![op.k] = 0], res |-> <<d[op.k], TRUE>>]
                             ELSE [d |-> d, res |-> <<0, FALSE>>]
+    \* one REPORTED element of a sweep: at that instant the key held exactly this element, expired, and it was removed.
+    \* (Range iterates the live Go map with the lock released around the callback: a key that the sweep emptied and that
+    \*  was given a new element meanwhile may be produced again, so one sweep can remove two generations of a key.)
+    [] op.m = "sweepelem" -> IF d[op.k] = op.v /\ Exp(op.v) THEN [d |-> [d EXCEPT ![op.k] = 0], res |-> <<op.v, TRUE>>]
+                             ELSE [d |-> d, res |-> <<0, FALSE>>]
 
 RECURSIVE ApplyAll(_, _)
 ApplyAll(ops, d) == IF ops = <<>> THEN d ELSE ApplyAll(Tail(ops), SeqApply(Head(ops), d).d)
